@@ -315,6 +315,27 @@ func verifC05_Enforce() {
 		} else if !allow(spec.IPFilter) {
 			verifAssert(got.code >= 400 && got.code < 500, "denied-client-gets-4xx")
 		}
+		// the filter of a rule applies to every request of the rule's host that the router takes
+		// to that rule, i.e. that no earlier rule routes - whether or not the rule itself has an
+		// entry for it (a client the rule denies must not slip through to a later catch-all rule)
+		for _, r := range mi.rules {
+			if !vRuleMatch(r, req) {
+				continue
+			}
+			if !allow(vRuleOf[r].IPFilter) {
+				verifAssert(got.code >= 400 && got.code < 500, "denied-by-a-rule-of-its-host-gets-4xx")
+				if want.code == 0 {
+					verifAssert(got.code == 403, "denied-client-gets-403-when-route-exists")
+					if vRuleOf[r] != want.rule {
+						verifCover("denied-by-an-earlier-rule-of-its-host")
+					}
+				}
+				break
+			}
+			if want.code == 0 && vRuleOf[r] == want.rule {
+				break
+			}
+		}
 		// allowed by every filter of the server: routed exactly as if no filter existed
 		all := allow(spec.IPFilter)
 		for _, r := range spec.Rules {
@@ -346,6 +367,10 @@ func verifC05_Enforce() {
 		verifCover("cache-hit")
 	}
 }
+
+// verifC05_EnforceTwoRules: the same oracle over TWO rules with one entry each - a request may be
+// denied by the first rule's filter although only the second rule has an entry for it.
+func verifC05_EnforceTwoRules() { verifC05_Enforce() }
 
 // ---- hash functions may collide -------------------------------------------------------------
 // A route cache keyed by a HASH of the request is only as good as the hash is collision-free:
